@@ -4,7 +4,7 @@
    every layer / every value a source ever reported). *)
 From Coq Require Import List NArith ZArith Bool.
 From Dials Require Export Base.Outcome Base.Runes Reflect.Ty Reflect.Ptrify Reflect.Heap Copy.DeepCopy Copy.Canon
-  Stack.Overlay Stack.ComposeH.
+  Copy.DeepCopySpec Stack.Overlay Stack.ComposeH.
 Import ListNotations.
 Open Scope N_scope.
 
@@ -37,6 +37,8 @@ Definition check (c : c02case) : N :=
       let hin := input_heap H n_in in
       let fuel := walk_fuel H (HPtr (Some d)) in
       let m := compose_h fuel fs hin n_in d layers in
+      (* the shipped inputs must satisfy the decidable hypotheses of the theorems *)
+      if negb (wf_heapb hin n_in && (d <? n_in) && layers_below n_in layers) then 1 else
       match impl with
       | Ok (r1, r2) =>
           match reach_of fuel H r1, reach_of fuel H r2 with
